@@ -151,8 +151,10 @@ func cliRobust(name string, data []byte) string {
 		}
 	}
 	state := "clean"
-	for _, m := range []string{"panic:", "fatal error:", "goroutine ", "runtime error"} {
-		if strings.Contains(string(r.stderr), m) {
+	// a Go crash prints "panic: …" / "fatal error: …" at the start of a line, followed by "goroutine N [running]:"; a
+	// recovered panic that the program reports as an ordinary error ("…: runtime error: slice bounds out of range") is not one
+	for _, l := range strings.Split(string(r.stderr), "\n") {
+		if strings.HasPrefix(l, "panic: ") || strings.HasPrefix(l, "fatal error: ") || (strings.HasPrefix(l, "goroutine ") && strings.Contains(l, " [")) {
 			state = "dirty"
 		}
 	}
